@@ -19,7 +19,10 @@ RULE = ("Structured generators, bytes compared exactly with the Coq model, plus 
         "(independent RFC 1071 verification h/u, length consistency l, zero UDP checksum z, gopacket option decode gp, "
         "getter read-back get, DHCPv6 re-parse). Frames: ip4/udp4/ip6/wrap with payload sizes {0,1,2,odd,even,~300,1472, "
         "65507/65508 boundary}, v4-mapped/16-byte/nil/odd-length addresses, payloads crafted so that the UDP checksum "
-        "computes to zero. DHCPv4 rewrite ops (o82ins keep/drop/replace, o82strip, setu32, setip, proxy, giaddr, hops) on "
+        "computes to zero; 420 targeted frames (gen_carry: ip4/udp4/wrap/ip6/pool/resolved) whose free 16-bit word (last payload word, "
+        "low source-address word, low xid word) is solved so that the 32-bit sum needs the SECOND end-around-carry fold (first fold "
+        "= 0x10000 / maximal / random), or lands on the folded-sum boundaries 0xFFFF, 0xFFFE, 0x0001 - for the IPv4 header "
+        "checksum and every UDP checksum routine. DHCPv4 rewrite ops (o82ins keep/drop/replace, o82strip, setu32, setip, proxy, giaddr, hops) on "
         "client/server messages with option sets in random order, pads, missing END, bytes after END, truncated last "
         "option, 255-byte options, 0/1/2/3 pre-existing option 82, target option absent / present with length 4 / "
         "other length / duplicated, packets shorter than 240; leases incl. 0, 2^32/7 boundary, 0xFFFFFFFF. Reply builder "
@@ -524,6 +527,145 @@ def gen_v6(rng, n):
     return cases
 
 
+
+# ------------------------------------------------------------------ targeted: double end-around carry, zero boundary
+# C19_ones_complement: the 32-bit sum S needs a SECOND fold exactly when (S >> 16) + (S & 0xFFFF) >= 0x10000.
+# Random payloads hit that about once in 6000 frames; these generators solve for one free 16-bit word so that
+# every case does (and, separately, so that the folded sum sits on the 0xFFFF / 0xFFFE / 0x0001 boundaries).
+def _solve_word(rng, s0, mode):
+    """s0 = 32-bit sum with the free word = 0 (must be >= 0x10000 for the carry modes).
+       Returns the value of the free word."""
+    high = s0 >> 16
+    lo = s0 & 0xFFFF
+    if mode == "carry_min":      # first fold gives exactly 0x10000
+        t = (0x10000 - high) & 0xFFFF
+    elif mode == "carry_max":    # first fold as large as possible
+        t = 0xFFFF
+    elif mode == "carry_rnd":
+        t = 0xFFFF - rng.randrange(0, max(1, high))
+    elif mode == "below":        # one below the double carry: first fold gives 0xFFFF -> checksum 0 boundary
+        t = (0xFFFF - high) & 0xFFFF
+    elif mode == "fffe":         # folded sum 0xFFFE -> checksum 1
+        t = (0xFFFE - high) & 0xFFFF
+    else:                        # "one": folded sum 0x0001 -> checksum 0xFFFE (needs a wrap of the low half)
+        t = (0x10001 - high) & 0xFFFF if high >= 1 else 1
+    return (t - lo) & 0xFFFF
+
+
+CARRY_MODES = ["carry_min", "carry_max", "carry_rnd", "carry_rnd", "carry_min", "below", "fffe", "one"]
+
+
+def _heavy_payload(rng, n):
+    """even length n >= 2, last word free (zero), many 0xFFFF words so that the high half is > 0"""
+    q = rng.random()
+    if q < 0.4:
+        b = bytearray(b"\xff" * n)
+    elif q < 0.7:
+        b = bytearray(rb(rng, n))
+        for i in range(0, n - 2, 2):
+            if rng.random() < 0.5:
+                b[i:i + 2] = b"\xff\xff"
+    else:
+        b = bytearray(rb(rng, n))
+    b[-2:] = b"\0\0"
+    return b
+
+
+def _finish(rng, base, pl, mode):
+    s0 = base + csum_words(bytes(pl))
+    if s0 < 0x10000 and mode != "one":
+        pl[0:2] = b"\xff\xff"
+        pl[2:4] = b"\xff\xff" if len(pl) >= 6 else pl[2:4]
+        s0 = base + csum_words(bytes(pl))
+    w = _solve_word(rng, s0, mode)
+    pl[-2:] = struct.pack(">H", w)
+    return bytes(pl)
+
+
+def _hdr_src(rng, total, dst, mode):
+    """source address whose low word makes the IPv4 HEADER sum take the wanted fold path"""
+    hi = rng.choice([0xFFFF, 0xFFFE, 0xC0A8, 0x6440, rng.randrange(65536)])
+    s0 = 0x4500 + (total & 0xFFFF) + 0x4011 + hi + csum_words(dst)
+    if s0 < 0x10000:
+        hi = 0xFFFF
+        s0 = 0x4500 + (total & 0xFFFF) + 0x4011 + hi + csum_words(dst)
+    return struct.pack(">HH", hi, _solve_word(rng, s0, mode))
+
+
+def reply_payload(xid, ci, yi, gw, hw, mt, opts):
+    """python transcription of the DHCPv4 reply layout for plain parameters (used only to aim the generator)"""
+    b = bytes([2, 1, 6, 0]) + struct.pack(">I", xid) + bytes(4) + ci + yi + gw + bytes(4)
+    b += (hw + bytes(208))[:208] + bytes([99, 130, 83, 99]) + bytes([53, 1, mt])
+    for c, d in opts:
+        b += bytes([c, len(d)]) + d
+    return b + b"\xff"
+
+
+def gen_carry(rng, n):
+    cases = []
+    bc = b"\xff" * 4
+    for k in range(n):
+        mode = CARRY_MODES[k % len(CARRY_MODES)]
+        which = k % 7
+        sz = rng.choice([2, 4, 6, 8, 16, 64, 240, 300, 302, 548, 1472])
+        sp, dp = rng.choice([67, 68, 0, 65535, rng.randrange(65536)]), rng.choice([67, 68, 546, 65535])
+        dst = rng.choice([bc, bc, ip4(rng)])
+        if which in (0, 1, 2):
+            # UDP checksum of BuildIPv4UDPFrame / BuildUDPPacket / WrapIPUDP; header checksum aimed too on odd rounds
+            ulen = 8 + sz
+            hmode = CARRY_MODES[(k // 7) % len(CARRY_MODES)]
+            src = _hdr_src(rng, 20 + ulen, dst, hmode) if (k // 7) % 2 else ip4(rng)
+            if which == 2:
+                sp, dp = 67, 68
+            base = csum_words(src + dst) + 17 + ulen + sp + dp + ulen
+            pl = _finish(rng, base, _heavy_payload(rng, sz), mode)
+            if which == 0:
+                cases.append("ip4 %s %s %d %d %s" % (hx(src), hx(dst), sp, dp, hx(pl)))
+            elif which == 1:
+                cases.append("udp4 %s %s %d %d %s" % (hx(src), hx(dst), sp, dp, hx(pl)))
+            else:
+                cases.append("wrap %s %s %s" % (hx(src), hx(dst), hx(pl)))
+        elif which == 3:
+            s16 = rng.choice([b"\xff" * 16, bytes.fromhex("fe80000000000000") + rb(rng, 8), rb(rng, 16)])
+            d16 = rng.choice([b"\xff" * 16, bytes.fromhex("ff020000000000000000000000010002"), rb(rng, 16)])
+            ulen = 8 + sz
+            base = csum_words(s16 + d16) + ulen + 17 + sp + dp + ulen
+            pl = _finish(rng, base, _heavy_payload(rng, sz), mode)
+            cases.append("ip6 %s %s %d %d %s" % (hx(s16), hx(d16), sp, dp, hx(pl)))
+        elif which == 4:
+            # header checksum only (small payload, any UDP sum)
+            ulen = 8 + sz
+            src = _hdr_src(rng, 20 + ulen, dst, mode)
+            op = rng.choice(["ip4", "udp4", "wrap"])
+            pl = rb(rng, sz)
+            cases.append(("wrap %s %s %s" % (hx(src), hx(dst), hx(pl))) if op == "wrap" else
+                         ("%s %s %s %d %d %s" % (op, hx(src), hx(dst), sp, dp, hx(pl))))
+        else:
+            # the server reply path: aim with the low word of the xid (what varies per subscriber)
+            gw = rng.choice([bytes([100, 64, 0, 1]), bytes([10, 0, 0, 1]), ip4(rng)])
+            yi, hw = ip4(rng), rb(rng, 6)
+            mask = bytes([255, 255, 255, 0])
+            lease = rng.choice([3600, 86400, 604800])
+            mt = rng.choice([2, 5])
+            dns = [ip4(rng) for _ in range(rng.choice([0, 1, 2]))]
+            xhi = rng.choice([0xFFF2, 0xFFFF, rng.randrange(65536)])
+            if which == 5:
+                opts = [(54, gw), (51, struct.pack(">I", lease)), (1, mask), (3, gw)] + ([(6, b"".join(dns))] if dns else [])
+            else:
+                opts = [(51, struct.pack(">I", lease)), (1, mask), (54, gw), (3, gw)] + ([(6, b"".join(dns))] if dns else [])
+            p0 = reply_payload(xhi << 16, bytes(4), yi, gw, hw, mt, opts)
+            ulen = 8 + len(p0)
+            s0 = csum_words(gw + bc) + 17 + ulen + 67 + 68 + ulen + csum_words(p0)
+            xid = (xhi << 16) | _solve_word(rng, s0, mode)
+            dn = [hx(d) for d in dns]
+            if which == 5:
+                cases.append(" ".join(["pool", str(xid), "nil", hx(hw), str(mt), hx(yi), hx(gw), hx(mask), str(lease), str(len(dn))] + dn + ["0"]))
+            else:
+                cases.append(" ".join(["resolved", str(xid), "nil", hx(hw), str(mt), hx(yi), hx(gw), hx(gw), hx(mask), str(lease),
+                                       str(len(dn))] + dn + ["0", "0"]))
+    return cases
+
+
 def gen_cases(rng, tier, budget):
     k = 1 if tier == "quick" else 12
     if budget:
@@ -532,6 +674,7 @@ def gen_cases(rng, tier, budget):
     cases += gen_v4_rewrite(rng, 2200 * k)
     cases += gen_o82build(rng, 150 * k)
     cases += gen_frames(rng, 500 * k, tier)
+    cases += gen_carry(rng, 420 * k)
     cases += gen_reply(rng, 900 * k)
     cases += gen_v6(rng, 1500 * k)
     return cases
